@@ -506,6 +506,13 @@ def gen_opspec(rng):
     return {"d": d}
 
 
+# (attribute address, declared type): the declared type need not be the tag's own (raw octets are re-read with it);
+# a list of types reads the octets type by type; @0x99/1/9 does not exist (refused), @1/1/7 is the Identity's name
+TYPED_ATTRS = [("@0x99/1/1", "INT"), ("@0x99/1/1", "SINT"), ("@0x99/1/1", "DINT"), ("@0x99/1/1", ["INT", "SINT", "SINT", "DINT"]),
+               ("@0x99/1/2", "DINT"), ("@0x99/1/2", "REAL"), ("@0x99/1/2", "INT"), ("@0x99/1/2", ["SINT", "SINT", "INT", "DINT", "REAL"]),
+               ("@0x99/1/9", "INT"), ("@1/1/7", "SSTRING"), ("@1/1/1", "INT"), ("@1/1/6", "DINT")]
+
+
 SETTINGS = [(via, d, m) for via in "spo" for d in DEPTHS for m in MULTIPLES]
 
 
@@ -781,6 +788,22 @@ class C12(Suite):
             if all("t" in sp and not sp.get("a") and not sp.get("x") for sp in specs):
                 for d, m in [(0, 0), (2, 0), (1, 250), (5, 4000)][: 2 if quick else 4]:
                     yield {"k": "pipe", "ops": specs, "via": "x", "depth": d, "multiple": m, "fragment": False, "index": 0}
+        # proxy.read_details with DECLARED types (attribute, CIP type or list of types, units): Get Attribute Single,
+        # the raw octets converted per operation with that operation's own declared type and reported with its own
+        # address and units - whatever the depth and the bundling (the result index is not the packet index)
+        for li in range(6 if quick else 40):
+            n = rng.choice([2, 3, 4, 5, 6, 8])
+            specs, typed = [], []
+            if li % 2 == 0:      # non-zero octets to convert: plain writes first (no declared type: Write Tag by address)
+                specs += [{"t": "@0x99/1/1=(INT)%d,%d,%d,%d" % tuple(rng.randint(-30000, 30000) for _ in range(4)), "x": {}},
+                          {"t": "@0x99/1/2=(DINT)%d,%d,%d" % tuple(rng.randint(-2 ** 31, 2 ** 31 - 1) for _ in range(3)), "x": {}}]
+                typed += [[None, ""], [None, ""]]
+            for _ in range(n):
+                t, ty = rng.choice(TYPED_ATTRS)
+                specs.append({"t": t, "a": 1, "x": {}})
+                typed.append([ty, rng.choice(["", "rpm", "Hz", "V"])])
+            for d, m in ([(1, 0), (0, 250), (3, 500), (2, 4000)] if quick else [(0, 0), (1, 0), (4, 0), (0, 100), (0, 250), (3, 500), (2, 4000), (1, 69)]):
+                yield {"k": "pipe", "ops": specs, "typed": typed, "via": "x", "depth": d, "multiple": m, "fragment": False, "index": 0}
 
     # -- model line ----------------------------------------------------------------------------
     def model_line(self, c):
@@ -884,7 +907,10 @@ class C12(Suite):
     def get_baseline(self, c):
         """the synchronous, unbundled run over freshly built operations (what the property compares with)"""
         pf = c.get("pf", c["fragment"])
-        key = json.dumps([c["ops"], c["fragment"], pf], sort_keys=True)
+        key = json.dumps([c["ops"], c["fragment"], pf, c.get("typed")], sort_keys=True)
+        if key not in self.baseline and c.get("typed"):
+            r = self.run_pipe(dict(c, depth=0, multiple=0))      # the proxy itself, one request at a time, unbundled
+            self.baseline[key] = ["0~" + v for _i, v in r["results"]] if r["outcome"] == "ok" else "baseline:" + r["outcome"]
         if key not in self.baseline:
             r = self.run_pipe({"k": "pipe", "ops": c["ops"], "via": "s", "depth": 0, "multiple": 0,
                                "fragment": c["fragment"], "pf": pf, "index": 0})
@@ -948,8 +974,16 @@ class C12(Suite):
         vals, outcome = [], "ok"
         try:
             with via:
-                for v in via.read([sp["t"] for sp in c["ops"]]):
-                    vals.append(token(0, v).split("~", 1)[1])
+                if c.get("typed"):
+                    attrs = [(sp["t"], ty, uni) if ty is not None else sp["t"] for sp, (ty, uni) in zip(c["ops"], c["typed"])]
+                    for v, (sts, (att, typ, uni)) in via.read_details(attrs):
+                        tn = "+".join(getattr(t, "__name__", str(t)) for t in (typ if isinstance(typ, (list, tuple)) else [typ]))
+                        st = token(sts, None).split("~", 1)[0]
+                        vals.append((token(0, v).split("~", 1)[1] + "/" + st + "/" + str(att) + "/" + tn + "/" + str(uni)).replace(
+                            ",", ";").replace(":", ";").replace(" ", "_"))
+                else:
+                    for v in via.read([sp["t"] for sp in c["ops"]]):
+                        vals.append(token(0, v).split("~", 1)[1])
         except Exception as exc:
             outcome = "exc:" + type(exc).__name__
         finally:
@@ -1030,7 +1064,13 @@ class C12(Suite):
             return "run ended with %s" % fields.get("O")
         if c["via"] == "x":
             vals = [] if fields["V"] == "-" else fields["V"].split(",")
-            if vals != [t.split("~", 1)[1] for t in base]:
+            want = [t.split("~", 1)[1] for t in base]
+            if vals != want and c.get("typed"):
+                i = next((j for j, (a, b) in enumerate(zip(vals, want)) if a != b), min(len(vals), len(want)))
+                return ("proxy.read_details (declared types) at depth %d, multiple %d: result %d is %s, the unbundled one-at-a-time run gives %s "
+                        "(value/status/attribute/type/units)" % (c["depth"], c["multiple"], i, vals[i] if i < len(vals) else None,
+                                                                  want[i] if i < len(want) else None))
+            if vals != want:
                 return "proxy.read values differ from the synchronous unbundled run"
             return None
         res = [] if fields["R"] == "-" else [r.split(":", 1) for r in fields["R"].split(",")]
@@ -1085,7 +1125,7 @@ class C12(Suite):
             if " O=ok" not in out:
                 return None
             if c["via"] == "x":
-                return ("x", json.dumps(c["ops"]), c["depth"], c["multiple"]) if len(c["ops"]) > 1 else None
+                return ("x", json.dumps(c["ops"]), json.dumps(c.get("typed")), c["depth"], c["multiple"]) if len(c["ops"]) > 1 else None
             ps = out.split(" ")[0][2:].split(",")
             bundled = any(len(p.split(":")[2]) > 1 for p in ps if p != "-")
             inflight = c["via"] != "s" and c["depth"] > 0 and len(ps) > 1
@@ -1107,7 +1147,7 @@ class C12(Suite):
                 toks = [r.split(":", 1)[1].split("~")[0] for r in out.split(" ")[1][2:].split(",") if ":" in r]
                 if any(t not in ("0", "6") for t in toks):
                     refused = "refused"
-            return "pipe:%s:d%s:m%s:n%s:%s:%s" % (c["via"], "0" if c["depth"] == 0 else "1-2" if c["depth"] <= 2 else "3+",
+            return "pipe:%s:d%s:m%s:n%s:%s:%s" % (c["via"] + ("-typed" if c.get("typed") else ""), "0" if c["depth"] == 0 else "1-2" if c["depth"] <= 2 else "3+",
                                                    "0" if c["multiple"] == 0 else "<=250" if c["multiple"] <= 250 else ">250",
                                                    size, refused, out.rsplit("O=", 1)[-1])
         head = out.split(" ")[0]
